@@ -845,7 +845,15 @@ def rs_e2(ctx, ks, dist):
                label={"structure": "ReservoirSampling", "k": k, "max_stream": 4 * k + 4})
         if dist:
             w = ctx.sub("rs_%d" % k)
-            rs_dist_table(ctx, os.path.join(w, "p.ndjson"), w, k)
+            try:
+                rs_dist_table(ctx, os.path.join(w, "p.ndjson"), w, k)
+            except ToolError as e:
+                # k = 3 needs gcd-normalised weights to stay within 32-bit integers; a grossly non-uniform sampler can
+                # overflow them.  The k = 1, 2 tables (always exact) have then already rejected it.
+                if k >= 3 and any(r["pspec"] == "P_ReservoirDist" for r in ctx.rejects):
+                    ctx.notes.append("k=%d distribution table not evaluated (integer overflow on a non-uniform table): %s" % (k, str(e)[:200]))
+                else:
+                    raise
 
 
 def run_rs(ctx, dist):
@@ -854,8 +862,8 @@ def run_rs(ctx, dist):
         rs_e2(ctx, [1, 2], dist)
         std_e3(ctx, "rs", "P_Reservoir", "rs_e3", drive_args=["--scenarios", "24", "--max-n", "3000"], sample='"gap"')
     else:
-        rs_e1(ctx, [1, 2, 3], [1, 2] if dist else [])
-        rs_e2(ctx, [1, 2, 3] if not dist else [1, 2], dist)
+        rs_e1(ctx, [1, 2, 3], [1, 2, 3] if dist else [])
+        rs_e2(ctx, [1, 2, 3], dist)
         std_e3(ctx, "rs", "P_Reservoir", "rs_e3", drive_args=["--scenarios", "300", "--max-n", "100000"], sample='"gap"')
 
 
@@ -1154,8 +1162,8 @@ PROPS = {
                     "E3: k in {1,2,3,10,64,100}, n to 10^5 with pseudo-random, all-zero, all-one and alternating raw RNG words; non-trivial = tagged (replaces / keeps / switch accepts / first gap skips / gap accepts / gap skips)",
             "assumptions": ["TLC and the TLA+ P-spec P_Reservoir judge every executed call", "rand 0.8 sampling algorithms (self-tested at start-up) for scripted draws"]},
     "C05": {"run": lambda ctx: run_rs(ctx, True), "level": "model_checking",
-            "level_text_extra": "exact for n <= 4k+1, k in {1,2}; gap phase bound by mechanism",
-            "rule": "exact inclusion probabilities by path counting: on the spec (MC_ReservoirDist) and on the table of draws recorded from the real sampler (P_ReservoirDist) for every n <= 4k+1, k in {1,2}: "
+            "level_text_extra": "exact for n <= 4k+1, k in {1,2} (k = 3 in the thorough tier); gap phase bound by mechanism",
+            "rule": "exact inclusion probabilities by path counting: on the spec (MC_ReservoirDist) and on the table of draws recorded from the real sampler (P_ReservoirDist) for every n <= 4k+1, k in {1,2} (and k = 3 in the thorough tier, with gcd-normalised weights): "
                     "every plain-phase outcome j and every one of the 4k+1 equiprobable cells of the unit draw at the phase switch is executed; gap phase: scripted unit values on a dyadic grid, the next accepted index must be base + g with GapOK; "
                     "non-trivial = tagged transitions",
             "assumptions": ["uniformity of the RNG (rand's gen_range maps a uniform lattice of words to equiprobable outcomes; self-tested)", "the quantitative bias of gap sampling for n >> 4k is not decided (statement: 'of relative order 1/k')"]},
@@ -1225,3 +1233,8 @@ def _dbg_td_real(ctx):
 def _dbg_td_real_big(ctx):
     td_real(ctx, 3000)
     td_e3(ctx, 600)
+
+
+def _dbg_rs3(ctx):
+    rs_e1(ctx, [], [3])
+    rs_e2(ctx, [3], True)
